@@ -140,7 +140,9 @@ class C08(core.Check):
     ]
     partial_note = (
         "Theorems: mid point / centre / uniqueness / three-point centre / side test on bisector / polyline >= chord. "
-        "Validator-checked only: the acos step (length = radius x angle), arc length >= chord for arcs, float rounding. "
+        "Over the reals (round 6): arc_length_3point as modelled = radius x angle incl. the arccos step, exactly outside the known "
+        "finding's region; the three specifications agree. Validator-checked only: float rounding of the implementation (its acos step is "
+        "validated through a rational (cos, sin) witness of length/radius), arc length >= chord for Origin/classic arcs. "
         "Known finding: the interior/exterior decision of arc_length_3point for a third point between the far end and the "
         "antipode (identical to blockMesh's arcEdge)."
     )
